@@ -2,7 +2,9 @@ package headers
 
 import (
 	"fmt"
+	"maps"
 	"math"
+	"slices"
 	"strconv"
 	"strings"
 	"time"
@@ -293,7 +295,11 @@ func (h *Range) Unmarshal(v base.HeaderValue) error {
 
 	specFound := false
 
-	for k, v := range kvs {
+	// iterate keys in a fixed order, in order to make the result
+	// independent of map iteration order when keys are in conflict.
+	for _, k := range slices.Sorted(maps.Keys(kvs)) {
+		v := kvs[k]
+
 		switch k {
 		case "smpte":
 			s := &RangeSMPTE{}
